@@ -14,7 +14,7 @@ const maxProtoTimeS = int64(253402300799) // 9999-12-31T23:59:59Z, the last inst
 // annotateTopUp adds the facts that identify finding F9 (a top-up whose new deposit-zero time
 // cannot be represented) to a rejected top-up.
 func annotateTopUp(e *Exec, d *Disc, tx *model.Tx) {
-	if (d.Kind != "tx.reject_unexpected:str.topup" && d.Kind != "tx.panic") || e.PreM == nil {
+	if tx == nil || (d.Kind != "tx.reject_unexpected:str.topup" && d.Kind != "tx.panic") || e.PreM == nil {
 		return
 	}
 	m := model.Flatten(tx.Msgs)[0]
